@@ -52,6 +52,7 @@ def gen_history(rng, spec, length):
         if ncam > 1:
             must.append({'fault': [['camera', (k + 1) % ncam, rng.randrange(3)], ['camera', k, rng.randrange(3)]]})
     must.append({'fault': [['scene', 'no-such-scene']]})
+    must.append({'fault': [['scene', ['same', rng.randrange(3)]]]})   # another object with the id of one of the scenes
     must.append({'sink': rng.choice([0, 1, 7, 100, 1000])})
     rng.shuffle(must)
     for m in must + [None] * max(0, length - len(must)):
@@ -65,7 +66,7 @@ def gen_history(rng, spec, length):
             elif r < 0.55 and ncam:
                 m = {'fault': [['camera', rng.randrange(ncam), rng.randrange(3)]]}
             elif r < 0.7:
-                m = {'fault': [['scene', rng.choice(['no-such-scene', 'scene9', ''])]]}
+                m = {'fault': [['scene', rng.choice(['no-such-scene', 'scene9', '', ['same', 0], ['same', 1]])]]}
             else:
                 m = {'healthy': True}
         if 'fault' in m:
@@ -138,8 +139,15 @@ def gen_xml(rng):
             'value': rng.choice(['1', '2', 'v']), 'edits': [rng.choice(['add_camera', 'add_light', 'add_material'])] if rng.random() < 0.5 else []}
 
 
+OTHER_NS = ['http://www.collada.org/2008/03/COLLADASchema', 'http://www.collada.org/2004/COLLADASchema', 'urn:not-collada']
+
+
 def gen_other_step(rng):
     docs = [gen_xml(rng) for _ in range(rng.choice([1, 2, 3]))]
+    for d in docs:
+        # other documents may be in another revision of the COLLADA namespace (default or prefixed root)
+        if rng.random() < 0.5:
+            d['ns'] = rng.choice(OTHER_NS)
     if rng.random() < 0.3:
         docs.append({'kind': 'file', 'name': rng.choice(FILES_SMALL), 'ext': [['extra', -1]]})
     if rng.random() < 0.3:
